@@ -41,6 +41,7 @@ CONSTANTS Impl,        \* FALSE: intended semantics; TRUE: code-shaped semantics
           Tags,        \* content tags of caller-made arrays (subset of 1..9)
           MaxOps,      \* bound on the number of operations of a behaviour
           Record,      \* TRUE: keep the operation sequence in `path' (one state per behaviour)
+          Populated,   \* TRUE: a second initial state with one committed batch
           Labels,      \* TRUE: `last' carries the full operation label (replay); FALSE: only its class
           Getters      \* FALSE: leave out the pure getters (heap no-ops; the harness calls all of them
                        \* after every step anyway) - used to enumerate longer operation sequences
@@ -267,23 +268,50 @@ ImportOps   == {"update_from_dict", "from_dict", "load_state"}
 Class(op) == IF op \in ScribbleOps THEN "scribble" ELSE IF op \in ImportOps THEN "load_state"
              ELSE IF op = "commit" THEN "commit" ELSE "other"
 
-Lbl(op, k, t, i, cp) == [op |-> op, k |-> k, t |-> t, i |-> i, cp |-> cp]
+\* operation label: op, destination key k, tag t, index i, copy flag cp, and - for moves that name an
+\* array the caller holds - WHERE the caller got it from: w \in {"cur" (passed with copy=False under key k2),
+\* "dcur" / "dhist" (entry of the export dict: _current[k2] / _history[k2][i]), "res" (results dict entry k2)}
+Lbl(op, k, t, i, cp) == [op |-> op, k |-> k, t |-> t, i |-> i, cp |-> cp, w |-> "", k2 |-> ""]
 
+Where(S, c) ==
+    IF c \in S.optin /\ \E k \in AK : S.cur[k] = c
+      THEN [w |-> "cur", k2 |-> CHOOSE k \in AK : S.cur[k] = c, i |-> 0]
+    ELSE IF S.d.on /\ \E k \in AK : S.d.cur[k] = c
+      THEN [w |-> "dcur", k2 |-> CHOOSE k \in AK : S.d.cur[k] = c, i |-> 0]
+    ELSE IF S.d.on /\ \E k \in AK : c \in Range(S.lst[S.d.hist[k]])
+      THEN LET k == CHOOSE k \in AK : c \in Range(S.lst[S.d.hist[k]])
+               L == S.lst[S.d.hist[k]]
+           IN  [w |-> "dhist", k2 |-> k, i |-> CHOOSE i \in 1..Len(L) : L[i] = c]
+    ELSE IF \E k \in RK : S.cache.on /\ S.cache.c[k] = c
+      THEN [w |-> "res", k2 |-> CHOOSE k \in RK : S.cache.c[k] = c, i |-> 0]
+    ELSE [w |-> "?", k2 |-> "", i |-> 0]
+
+LblAt(op, k, cp, wh) == [op |-> op, k |-> k, t |-> 0, i |-> wh.i, cp |-> cp, w |-> wh.w, k2 |-> wh.k2]
+
+Empty == [cur |-> [k \in AK |-> 0], beta |-> 0,
+          hl |-> [k \in Keys |-> KIdx(k)],
+          lst |-> [l \in 1..MaxL |-> IF l <= 3 THEN <<>> ELSE FREE],
+          arr |-> [c \in 1..MaxC |-> FREE],
+          cache |-> NoCache, d |-> NoD, disk |-> NoDisk,
+          ext |-> {}, optin |-> {}, lext |-> {}, rheld |-> FALSE]
+
+\* what the replay harness is told about the state reached: the view and the predicted sharing
+\* (the only sharing the intended semantics allows: opt-in arrays currently stored under a key)
+Obs(l, S) == [l |-> l, v |-> View(S), sh |-> {k \in AK : S.cur[k] \in S.optin}]
+
+\* two initial states: a new manager, and (Populated) one with a first batch committed
+\* ( = update_current({x, logl, beta}, copy=True); commit_current_to_history() )
 Init ==
-    /\ s = [cur |-> [k \in AK |-> 0], beta |-> 0,
-            hl |-> [k \in Keys |-> KIdx(k)],
-            lst |-> [l \in 1..MaxL |-> IF l <= 3 THEN <<>> ELSE FREE],
-            arr |-> [c \in 1..MaxC |-> FREE],
-            cache |-> NoCache, d |-> NoD, disk |-> NoDisk,
-            ext |-> {}, optin |-> {}, lext |-> {}, rheld |-> FALSE]
-    /\ last = Lbl("init", "", 0, 0, FALSE)
-    /\ path = <<>>
+    /\ \E pop \in (IF Populated THEN BOOLEAN ELSE {FALSE}) :
+         /\ s = IF pop THEN Norm(CommitOp(UpdNew(Empty, 1, 1, TRUE))) ELSE Empty
+         /\ last = Lbl(IF pop THEN "init_populated" ELSE "init", "", 0, 0, FALSE)
+    /\ path = <<IF Record THEN Obs(last, s) ELSE 0>>
 
 Step(S, l) ==
-    /\ Len(path) < MaxOps
+    /\ Len(path) <= MaxOps
     /\ s' = Norm(S)
-    /\ last' = IF Labels THEN l ELSE [l EXCEPT !.op = Class(l.op), !.k = "", !.t = 0, !.i = 0]
-    /\ path' = Append(path, IF Record THEN l ELSE 0)   \* ~Record: a depth counter only
+    /\ last' = IF Labels THEN l ELSE [l EXCEPT !.op = Class(l.op), !.k = "", !.t = 0, !.i = 0, !.w = "", !.k2 = ""]
+    /\ path' = Append(path, IF Record THEN Obs(l, s') ELSE 0)   \* ~Record: a depth counter only
 
 \* pure getters: fresh cells in both variants, heap unchanged
 GetCurrent     == \E k \in Keys \cup {"ALL"} : Step(s, Lbl("get_current", k, 0, 0, FALSE))
@@ -298,7 +326,7 @@ ComputeLogw    == Consistent(s) /\ Step(s, Lbl("compute_logw_and_logz", "", 0, 0
 SetCurrent     == \E k \in AK : \E t \in Tags : \E cp \in BOOLEAN :
                     Step(SetNew(s, k, t, cp), Lbl("set_current", k, t, 0, cp))
 SetCurrentHeld == \E k \in AK : \E c \in s.ext : \E cp \in BOOLEAN :
-                    Step(SetHeld(s, k, c, cp), Lbl("set_current_held", k, 0, c, cp))
+                    Step(SetHeld(s, k, c, cp), LblAt("set_current_held", k, cp, Where(s, c)))
 SetCurrentBeta == \E b \in 1..2 : Step(SetBeta(s, b), Lbl("set_current", "beta", b, 0, TRUE))
 UpdateCurrent  == \E t \in Tags : \E cp \in BOOLEAN :
                     Step(UpdNew(s, t, 1, cp), Lbl("update_current", "", t, 0, cp))
@@ -314,10 +342,11 @@ LoadState      == s.disk.on /\ Step(LoadOp(s), Lbl("load_state", "", 0, 0, FALSE
 
 \* the caller overwrites an array it holds (cp = the array was passed with copy=False)
 CallerScribble == \E c \in s.ext : s.arr[c] # SCR /\
-                    Step([s EXCEPT !.arr[c] = SCR], Lbl("scribble", "", 0, c, c \in s.optin))
+                    Step([s EXCEPT !.arr[c] = SCR], LblAt("scribble", "", c \in s.optin, Where(s, c)))
 \* the caller empties a list object it holds
 CallerScribbleList == \E l \in s.lext : s.lst[l] # <<>> /\
-                    Step([s EXCEPT !.lst[l] = <<>>], Lbl("scribble_list", "", 0, l, FALSE))
+                    Step([s EXCEPT !.lst[l] = <<>>],
+                         Lbl("scribble_list", CHOOSE k \in Keys : s.d.on /\ s.d.hist[k] = l, 0, 0, FALSE))
 \* the caller assigns into the results dict it holds (only possible if that dict IS the cache)
 CallerScribbleResDict == \E k \in RK : s.rheld /\ s.cache.on /\ s.cache.c[k] # 0 /\
                     Step([s EXCEPT !.cache.c[k] = 0], Lbl("scribble_resdict", k, 0, 0, FALSE))
